@@ -330,7 +330,7 @@ class StochasticScenario(Scenario):
             'fixed-pattern noise, rule-07 dark current, power-spectrum surface error on square and non-square masks; int and array seeds; '
             'square and non-square frames; one run in six uses 64x64 frames for moment checks) and unseeded cosmic-ray frames, interleaved '
             'by the seeded scheduler with global-RNG draws and reseeds (F4), repeated calls (F6) and signals that must be refused '
-            '(negative or > 9.22e18 pixels); distinct = distinct history digest; non-trivial = at least one RNG perturbation, duplicate or '
+            '(negative or > 9.22e18 pixels); further workload ingredients added by the seeded rounds are listed in MANIFEST.json and DESIGN.md section 15; distinct = distinct history digest; non-trivial = at least one RNG perturbation, duplicate or '
             'refusal fired and at least one oracle comparison was made')
     state_measure = 'distinct (model, option class, outcome) tuples reached'
     assumptions = ['moment checks use 7 standard errors on >= 4096 pixels with seeds derived from VERIF_SEED (false-alarm probability per '
